@@ -289,6 +289,8 @@ def _signatures(ctx):
             want = True
         elif fmt == 'vmdk' and not data[:4] == b'KDMV':
             want = None     # text descriptors: classified by content
+            if 'NUL, then the createType line' in key:
+                want = False        # the descriptor text ends at the NUL
             if 'text descriptor of ' in key:
                 n_ = int(key.split('text descriptor of ')[1].split()[0])
                 if n_ < 64:
